@@ -299,8 +299,22 @@ class Gen:
             if not self.emit(root):
                 return None
             p = self.w.slots[root["out"]]
+        if c.cls in model.HETERO and not self.hetero_well_conditioned(c, p):
+            return None
         which = r.choice(["joint", "marginal", "conditional"])
         return {"op": "affine", "a": c.id, "p": p.id, "which": which, "out": self.nid()}
+
+    @staticmethod
+    def hetero_well_conditioned(c, p):
+        """Generator-side envelope for heteroscedastic moment matching: the link moments are
+        exp(w'mu + w0 +- w'Sigma w / 2); beyond a few units their differences cancel catastrophically
+        (cosh-1, exp) and amplify rounding far above 1e-8 - a numerical limit, not a property question."""
+        Wm = ref.A(c.obj.W)
+        Sig, mu = ref.A(p.obj.Sigma), ref.A(p.obj.mu)
+        w = Wm[:, 1:]
+        s2 = np.einsum("kd,rde,ke->rk", w, Sig, w)
+        h = mu @ w.T + Wm[:, 0][None]
+        return bool(np.max(s2) <= 2.0 and np.max(np.abs(h)) <= 3.0)
 
     def g_update(self):
         r = self.r
@@ -475,6 +489,8 @@ class Gen:
                 p = self.fresh_pdf(Dx)
                 if p is None:
                     return None
+            if s.cls in model.HETERO and not self.hetero_well_conditioned(s, p):
+                return None
             rec["p"] = p.id
             rec["y"] = r.normal((p.R, int(s.obj.Dy)), 1.5)
             rec["callable"] = r.coin(0.4) and s.cls not in model.HETERO
